@@ -257,6 +257,12 @@ pub fn check(thorough: bool, _seed: u64) -> Check {
                 long.push(e);
             }
         }
+        // every length 18..48 (the lists 1..n), paired with everything else in this phase
+        for n in 18..=(if thorough { 70usize } else { 48 }) {
+            if n != 33 {
+                long.push((1..=n).map(|i| i as f64).collect());
+            }
+        }
         // aperiodic interleavings: the grid 1..n split between the operands by a bit pattern without a short period
         // (index arithmetic such as bitsets, blocks or strides behaves differently from one stretch of the result to the next)
         for n in [40usize, 70, 100].into_iter().chain(if thorough { vec![140usize, 200, 300] } else { vec![] }) {
@@ -270,7 +276,7 @@ pub fn check(thorough: bool, _seed: u64) -> Check {
                 }
             }
         }
-        phases.push(sym_phase("provenance-long-operands", long, json!({"operands": "every ordered pair among 1..n (n=6,7,9,17,33; 12,14,65,129 thorough), its even / odd / half-shifted sub-grids, its first half, its last end alone, and a copy with a duplicated last end; and the grids 1..40, 1..70, 1..100 (140, 200, 300 thorough) split between two operands by three aperiodic bit patterns"}), false));
+        phases.push(sym_phase("provenance-long-operands", long, json!({"operands": "every ordered pair among 1..n (n=6,7,9,17,33; 12,14,65,129 thorough), its even / odd / half-shifted sub-grids, its first half, its last end alone, and a copy with a duplicated last end; the lists 1..n for every n from 18 to 48 (70 thorough); and the grids 1..40, 1..70, 1..100 (140, 200, 300 thorough) split between two operands by three aperiodic bit patterns"}), false));
     }
     if thorough {
         let v6 = shapes(&[1.0, 2.0, 3.0, 4.0, 5.0, 6.0], 6).into_iter().filter(|e| e.len() == 6 || e.len() <= 2).collect();
